@@ -50,7 +50,7 @@ C_FUNCS = [
 ) for f in fs + ["truncate", "clear", "get_row_unsafe", "get_row"]]
 LEMMAS = ["lemmas.induction:offsets_transitive", "lemmas.induction:rank_bounds_and_monotone",
           "lemmas.induction:newoff_bounds_and_monotone"]
-BOUNDED = [{"name": "list_model", "module": "standins.c13_listmodel", "timeout": 900}]
+BOUNDED = [{"name": "list_model", "module": "standins.c13_listmodel", "timeout": 900, "asan": "thorough"}]
 UNVERIFIED = [              "edge tables created with TSK_TABLE_NO_METADATA (add_row contract covers the default variant)",
               "tsk_*_table_update_row, _takeset_columns, _keep_rows, _copy; _extend/_append_columns/_set_columns of the tables other than nodes",
               "python/tskit/tables.py facade", "TreeSequence immutability (numpy flags in _tskitmodule.c)"]
